@@ -876,7 +876,11 @@ func (x *xferWorld) report() *xferReport {
 	// the server's final message is printed after the terminal reset sequence
 	// (file content sent in binary mode may itself contain the words looked for: only what follows the last reset
 	// sequence is the server's own message)
-	if i := bytes.LastIndex(down, []byte("\x1b8\x1b[0J")); i >= 0 {
+	reset := []byte("\x1b8\x1b[0J")
+	if i := bytes.LastIndex(down, reset); i >= 0 && !bytes.Contains(down[i:], []byte("Switch to transfer in background")) {
+		// (a transfer handed to the background that was over within half a second prints its message first, between
+		// a cursor save and restore, and the notice about the background, which alone follows a reset, second: such
+		// a transfer runs over the tunnel, no file content is in this stream, and all of it is looked at)
 		down = down[i:]
 	}
 	text := string(vStripVT(down))
